@@ -351,7 +351,7 @@ fn run_tier(tier: Tier) -> Stats {
             both_batch_orders: tier.is_thorough(),
             max_ops: if n == 3 { 3 } else { 4 },
             max_purges: tier.pick(1, 2),
-            max_repairs: if n == 3 { 2 } else { tier.pick(2, 3) },
+            max_repairs: 2,
             horizon_steps: tier.pick(5, 6),
             max_dup_deliveries: tier.pick(0, 1),
         };
